@@ -183,10 +183,10 @@ class SecondOrderFiniteDifference(FirstOrderFiniteDifference):
         elif (self.bc_type == 'periodic'):
             locs = [-2, -1, 0]
             Dmat = spdiags(diags, locs, N+2, N).tocsr()
-            Dmat[0, -2] = -1
-            Dmat[0:2, -1] = [2, -1]
-            Dmat[-2, 0] = -1
-            Dmat[-1, 0:2] = [2, -1]
+            # wrap-around entries (they add to the band where both coincide, i.e. for N=2)
+            for row, col, val in [(0, -2, -1), (0, -1, 2), (1, -1, -1),
+                                  (-2, 0, -1), (-1, 0, 2), (-1, 1, -1)]:
+                Dmat[row, col] += val
         elif (self.bc_type == 'neumann'):
             locs = [0, 1, 2]
             Dmat = spdiags(diags, locs, N-2, N).tocsr()
